@@ -34,6 +34,12 @@ func runSessions(r *Run, cases []*RCase, what func(c *RCase, i int, g, m string)
 		}
 		lines = append(lines, c.Req)
 		live = append(live, c)
+		for _, t := range c.Tpls {
+			if strings.Contains(t.Src, ":= vok(") || strings.Contains(t.Src, ":= vnosuch(") {
+				r.Dist["templates_with_if_ok"]++
+				break
+			}
+		}
 	}
 	// parser oracle: the trees the sessions run on are what the sources mean (asttie.go)
 	checkParseBatch(r, live)
